@@ -247,9 +247,16 @@ func VerifC11_G1_outputs() {
 	}
 	for i := 0; i < k; i++ {
 		for j := i + 1; j < k; j++ {
-			if sym.Choice(fmt.Sprintf("e_%d_%d", i, j), 2) == 1 {
+			// 0: no edge, 1: j depends on i directly, 2: j depends on i through an alias
+			switch sym.Choice(fmt.Sprintf("e_%d_%d", i, j), 3) {
+			case 1:
 				adj[i][j] = true
 				targets[j].Dependencies = append(targets[j].Dependencies, mkLabel(i))
+			case 2:
+				adj[i][j] = true
+				al := label.TL("p", fmt.Sprintf("alias_%d_%d", i, j))
+				nodes[al] = &model.Alias{Label: al, Actual: mkLabel(i)}
+				targets[j].Dependencies = append(targets[j].Dependencies, al)
 			}
 		}
 	}
